@@ -3,6 +3,7 @@ CONSTANTS
   MaxReq = 3
   Pool = "tiny"
   WithBad = TRUE
+  KeepStale = FALSE
 INVARIANT RoundTrip
 INVARIANT StatusByMode
 INVARIANT Emit
